@@ -47,6 +47,31 @@ def rule_disc_origin(ctx, cfg, F):
     R.count("disconnected_sites[%s]" % cfg, n)
 
 
+def rule_recv_conv(ctx, cfg, F):
+    R = ctx.rule("RECV-CONV", "in every ipc-layer function that receives from the platform receiver, the platform error reaches the caller through its conversion into the ipc error type "
+                 "(the one that turns the closed-channel error into Disconnected), never by way of io::Error wrapped afterwards: `IpcError::Io(err.into())` reports a finished channel as an I/O error")
+    err = platform_error_adt(F)
+    n = 0
+    for f in sorted(F.fns.values(), key=lambda x: x.path):
+        if not (f.path.startswith("ipc::") or f.path.startswith("<ipc::")) or err is None:
+            continue
+        if not any(strip_generics(callee_name(t)).endswith(("::OsIpcReceiver::recv", "::OsIpcReceiver::try_recv", "::OsIpcReceiver::try_recv_timeout")) for _, t in f.calls()):
+            continue
+        n += 1
+        bad = None
+        for b, t in f.calls():
+            g = " ".join(t.get("generics") or []) + " " + " ".join(t.get("resolved_generics") or []) + " " + (t.get("resolved") or "")
+            nm = strip_generics(t.get("callee") or "")
+            if err in g and (nm.endswith("::from") or nm.endswith("::into")) and "std::io::Error" in g and "ipc::" not in g.replace(err, ""):
+                bad = b
+        if bad is not None:
+            R.violate("%s:platform-error-through-io-error" % strip_generics(f.path), "%s converts the platform receive error into std::io::Error (and wraps that): the closed-channel error is no longer "
+                      "classified as Disconnected" % f.path, f.path, f.loc(bad), config=cfg)
+        else:
+            R.ok("%s: receive errors go through the ipc error conversion" % f.path, f.loc(0), cfg)
+    R.count("receiving_fns[%s]" % cfg, n)
+
+
 def rule_try_conv(ctx, cfg, F):
     R = ctx.rule("TRY-CONV", "in every ipc-layer function that polls the platform receiver (try_recv / try_recv_timeout) the platform error reaches the caller through the conversion into TryRecvError "
                  "(the one that classifies would-block as Empty), never through the conversion into IpcError wrapped afterwards")
@@ -406,9 +431,33 @@ def rule_timeout_arm(ctx, cfg, F):
                 if r.kind == "call" and r.id == "std::time::Duration::as_millis":
                     at = f.term(r.block)
                     ok = any(x.kind == "param" for x in tr.roots_of_operand(at["args"][0]))
-            if ok:
+            # ... through a conversion that cannot wrap: as_millis() is a u128, and a plain `as c_int` turns 2^32 ms into 0 ms and 2^32+20 ms into 20 ms
+            wraps = None
+            seen_, work_ = set(), [op_local(t["args"][2])]
+            while work_ and len(seen_) < 60:
+                l_ = work_.pop()
+                if l_ is None or l_ in seen_:
+                    continue
+                seen_.add(l_)
+                for (db, si, node) in f.defs().get(l_, []):
+                    if f.is_cleanup(db):
+                        continue
+                    if si is None:
+                        if strip_generics(callee_name(node)) == "std::time::Duration::as_millis":
+                            continue
+                        work_ += [op_local(a) for a in node["args"]]
+                        continue
+                    rv = node["rv"]
+                    if rv["r"] == "cast" and rv["a"] and op_local(rv["a"][0]) is not None and f.local_ty(op_local(rv["a"][0])) in ("u128", "u64", "i64", "usize") and f.local_ty(l_) in ("i32", "u32", "i16", "u16"):
+                        wraps = (db, f.local_ty(op_local(rv["a"][0])), f.local_ty(l_))
+                    work_ += [op_local(a) for a in rv.get("a", [])]
+            if wraps:
+                ok = False
+                R.violate("%s:poll-timeout-truncated" % f.path, "the timeout handed to poll is the duration's milliseconds cut down with `as` (%s -> %s): a long timeout wraps to a short (or zero) one and the "
+                          "timed receive reports Empty long before the requested time" % (wraps[1], wraps[2]), f.path, f.loc(wraps[0]), config=cfg)
+            elif ok:
                 R.ok("poll timeout derives from the Timeout(duration) parameter", f.loc(b), cfg)
-            else:
+            elif not wraps:
                 R.violate("%s:poll-timeout-not-from-duration" % f.path, "poll's timeout is not computed from the duration parameter", f.path, f.loc(b), config=cfg)
         seen = {}
         for facts, rb, path in _result_relations(f, b):
@@ -784,6 +833,21 @@ def rule_followup_blocking(ctx, cfg, F):
             else:
                 R.ok("%s: follow-up read is blocking (flags 0, descriptor never passed to fcntl)" % f.path, f.loc(b), cfg)
     R.count("followup_reads[%s]" % cfg, n)
+    # one receive call reads one message in the caller's mode: the receive function does not start over on the channel's own socket with a mode of its own choosing
+    # (a "carry on with the next message" after an aborted one, read blocking, makes try_recv and a whole receiver set wait for a sender that may never send)
+    for f in sorted(F.fns.values(), key=lambda x: x.path):
+        if not any(strip_generics(callee_name(t)) == "libc::recv" for _, t in f.calls()) or not f.path.startswith("platform::unix"):
+            continue
+        mode_param = next((i for i in range(1, f.argc + 1) if "BlockingMode" in f.local_ty(i)), None)
+        if mode_param is None:
+            continue
+        tr = Tracer(f)
+        for b, t in f.calls():
+            if strip_generics(callee_name(t)) == strip_generics(f.path) and len(t["args"]) >= 2:
+                rs = tr.roots_of_operand(t["args"][mode_param - 1])
+                if not (rs and all(r.kind == "param" and r.id == mode_param for r in rs)):
+                    R.violate("%s:restart-in-other-mode" % f.path, "%s calls itself to read the next message with a blocking mode that is not the caller's: a non-blocking or timed receive (and select()) "
+                              "then blocks until some sender happens to send" % f.path, f.path, f.loc(b), config=cfg)
 
 
 # --------------------------------------------------------------------------- C12
